@@ -156,6 +156,11 @@ func (o *objectGoArrayReflect) getOwnPropIdx(idx valueInt) Value {
 }
 
 func (o *objectGoArrayReflect) _putIdx(idx int, v Value, throw bool) bool {
+	if idx >= o.fieldsValue.Len() {
+		// only reachable for Go arrays, slices grow before getting here
+		o.val.runtime.typeErrorResult(throw, "Cannot extend a Go array")
+		return false
+	}
 	cached := o.valueCache.get(idx)
 	if cached != nil {
 		copyReflectValueWrapper(cached)
